@@ -550,13 +550,20 @@ func (f *Formatter) renderOpenTag(n *html.Node) string {
 		buf.WriteString(attr.Key)
 		if attr.Val != "" {
 			buf.WriteString("=\"")
-			buf.WriteString(helpers.FormatAttr(attr.Val))
+			buf.WriteString(escapeAttr(helpers.FormatAttr(attr.Val)))
 			buf.WriteString("\"")
 		}
 	}
 
 	buf.WriteString(">")
 	return buf.String()
+}
+
+// escapeAttr escapes the characters that would end or alter a double-quoted
+// attribute value when the formatted output is parsed again.
+func escapeAttr(s string) string {
+	s = strings.ReplaceAll(s, "&", "&amp;")
+	return strings.ReplaceAll(s, "\"", "&quot;")
 }
 
 // renderCloseTag renders a closing tag.
